@@ -1,6 +1,8 @@
 """Per-property claim texts for MANIFEST.json."""
 HOOK_COMMITS = []
 ENGINES = [
+    {"name": "faultmc", "path": "harness/src/bin/faultmc.rs", "serves_properties": ["C04", "C05", "C06"],
+     "kind_free_text": "exhaustive byte-level fault enumeration (every position x masks, ranges, truncations, garbage) on reference containers, each case run by the real reader in an isolated worker process; oracles: integrity checks (C04), node-by-node dump comparison (C05), termination without panic/abort/signal (C06)"},
     {"name": "seqmc", "path": "harness/src/bin/seqmc.rs", "serves_properties": ["C01", "C16"],
      "kind_free_text": "bounded-exhaustive insertion sequences driven through the real content-pack creators (bare, OneFile, TwoFiles, NoConcat; direct and deduplicating adder) against a reference model (list of byte strings + abstract creator state validated through Progress callbacks); C16 observes the produced bytes with an independent decoder"},
     {"name": "schemamc", "path": "harness/src/bin/schemamc.rs", "serves_properties": ["C02", "C03", "C15"],
@@ -8,6 +10,27 @@ ENGINES = [
 ]
 NOT_YET = {}
 CLAIMS = {
+    "C04": {
+        "engine": "faultmc c04",
+        "technique": "exhaustive fault enumeration over every checksummed byte position x masks, real reader as subject",
+        "text": "For every created container of the set (all packagings incl. concat, 4 compressions): pristine packs verify; then every byte inside a pack's checked range or check block x {01,80,ff}, every aligned 4/16-byte run zeroed (thorough: pairs of positions): Pack::check of that pack, ContainerPack::check of the file and Container::check must each answer false or an error, never true. Exempt location bytes are enumerated and reported separately.",
+        "design_ref": "DESIGN.md §4 C04",
+        "note": "Coverage map from the independent decoder; single- and double-position faults and short runs, not arbitrary multi-byte patterns.",
+    },
+    "C05": {
+        "engine": "faultmc c05",
+        "technique": "exhaustive fault enumeration over every byte position x 5 alterations + range grid, differential oracle against the pristine dump",
+        "text": "Every byte of every file of the container set x {xor 01, xor 80, xor ff, set 00, set ff} plus zero/ff-filled ranges: the full logical dump through the real reader is compared node by node with the pristine dump; every node is an error or equal; content hashes may differ only when Container::check is not true.",
+        "design_ref": "DESIGN.md §4 C05",
+        "note": "Small containers; the dump covers what the public API exposes.",
+    },
+    "C06": {
+        "engine": "faultmc c06 (release and debug builds)",
+        "technique": "exhaustive fault enumeration (all truncation lengths, all positions x masks, range/garbage grids, non-jubako inputs) with process-level crash/hang observation",
+        "text": "Every truncation length, every position x {01,80,ff}, zeroed ranges, appended garbage and 12 non-jubako inputs on the container set (incl. >4 KiB mmap-path containers), whole reader run per case in a worker process, in release and in debug builds: no panic (hook reports the site), no abort/signal, no hang.",
+        "design_ref": "DESIGN.md §4 C06",
+        "note": "Timeout-based hang oracle (3-4 orders of magnitude of slack); CRC-preserving adversarial damage excluded by the property.",
+    },
     "C01": {
         "engine": "seqmc c01",
         "technique": "explicit enumeration of all operation sequences up to a depth bound from initial and non-initial creator states, each trace executed on the real creator and compared step by step with a reference model",
